@@ -33,7 +33,7 @@ C = 100.0
 
 def cases(tier, seed):
     out = []
-    mm = 4 if tier == "quick" else 5
+    mm = 4 if tier == "quick" else 6
     for m in range(1, mm + 1):
         perms = list(itertools.permutations(range(m)))
         for pi in perms:
@@ -44,9 +44,9 @@ def cases(tier, seed):
                 out.append({"kind": "perm", "cls": f"perm:m{m}", "m": m, "n": n, "pi": list(pi), "seed": seed})
     idx = 0
     for cls in ("gauss", "diag_dominant", "ties", "int", "scaled_small", "scaled_big", "pure_imag", "sparse_pattern", "layout"):
-        for rep in range(6 if tier == "quick" else 40):
+        for rep in range(6 if tier == "quick" else 120):
             out.append({"kind": "random", "cls": "random:" + cls, "entry": cls, "idx": idx, "seed": seed,
-                        "maxd": 8 if tier == "quick" else 14})
+                        "maxd": 8 if tier == "quick" else 20})
             idx += 1
     for k, sc in enumerate(("zero_column", "zero_matrix", "dependent_columns", "zero_1x1", "zero_row", "dependent_rows_wide", "zero_later_column")):
         for rep in range(3 if tier == "quick" else 12):
